@@ -270,7 +270,7 @@ func DecLeavesSmall() []reflect.Type {
 var Tags = []string{``, `json:"x"`, `json:",omitempty"`, `json:",string"`, `json:"-"`, `json:"x,omitempty,string"`}
 
 // TagZoo: member names given in tags (name or name,option).
-var TagZoo = []string{`a"b`, `a'b`, `a\\b`, "a`b", `a<b`, `a&b>`, `a b`, `é`, `a.b/c`, `ü1`, "a\u2028b", `[]{}`, `a:b`, `-,`, `a"b,omitempty`, `a<b,string`, `!#$%()*+-./:;=?@^_|~`}
+var TagZoo = []string{`a"b`, `a'b`, `a\\b`, "a`b", `a<b`, `a&b>`, `a b`, `é`, `a.b/c`, `ü1`, "a\u2028b", `[]{}`, `a:b`, `-,`, `a"b,omitempty`, `a<b,string`, `!#$%()*+-./:;=?@^_|~`, "m\u00b2", "\u00bd,omitempty", "\u2167", "x\u0663", "a\u0301"}
 
 // MapKeys: key types of generated maps.
 func MapKeys() []reflect.Type {
